@@ -9,7 +9,7 @@ import json,sys
 src,dst,prop,det=sys.argv[1:5]
 try: m=json.load(open(src))
 except Exception: m={}
-out=dict(property=prop, breaks=m.get("summary",""), needs_to_manifest=m.get("needs",""), files=m.get("files",[]),
+out=dict(property=prop, breaks=m.get("breaks", m.get("summary","")), needs_to_manifest=m.get("needs_to_manifest", m.get("needs","")), files=m.get("files",[]),
   origin="independent sub-agent given only the property text and a scratch worktree",
   confirmed_by_me="selftest/seed_eval.sh: demo.py exits 0 on the clean tree and non-zero with patch.diff applied; the 46-test suite passes with the patch; then ./check run against the patched scratch copy (FRAME_REPO)",
   detection=det)
